@@ -2,11 +2,12 @@
 # usage: tools/benign.sh <tier> — run every check against every property-preserving refactor in seeded/benign;
 # any CAUGHT cell is a false alarm of that check. Writes seeded/benign/RESULTS.tsv
 set -u
-tier="$1"
+tier="$1"; shift
+dirs=("$@"); [ ${#dirs[@]} -eq 0 ] && dirs=(/verif/seeded/benign/*/)
 ids="C01 C02 C03 C04 C05 C06 C07 C08 C09 C10 C11 C12 C13 C14 C15 C16 C17 C18 C19 C20"
 out=/verif/seeded/benign/RESULTS.tsv
-echo -e "refactor\ttier\t$(echo $ids | tr ' ' '\t')" > "$out"
-for s in /verif/seeded/benign/*/; do
+[ -f "$out" ] || echo -e "refactor\ttier\t$(echo $ids | tr ' ' '\t')" > "$out"
+for s in "${dirs[@]}"; do
   s=${s%/}; name=$(basename "$s")
   git -C /repo diff --quiet || { echo "/repo dirty" >&2; exit 2; }
   git -C /repo apply "$s/patch.diff" || { echo "$name: patch does not apply" >&2; continue; }
@@ -17,6 +18,7 @@ for s in /verif/seeded/benign/*/; do
     row="$row\t$c"
   done
   git -C /repo checkout -- .
+  grep -v "^$name	" "$out" > "$out.tmp"; mv "$out.tmp" "$out"
   echo -e "$row" | tee -a "$out"
 done
 for id in $ids; do /verif/check $id quick >/dev/null 2>&1; done
